@@ -476,7 +476,7 @@ static bool model_step_inner(Model &m, Op &op) {
         MAtt *a = find_att(*l, op.name);
         if (f.mode != FM_DEFINE) {
             if (!a) return skip();
-            if ((long long)op.att.v.size() * nc_type_size(op.att.type) > (long long)a->v.size() * nc_type_size(a->type)) return skip();
+            { auto pad4 = [](long long x) { return (x + 3) / 4 * 4; }; if (pad4((long long)op.att.v.size() * nc_type_size(op.att.type)) > pad4((long long)a->v.size() * nc_type_size(a->type))) return skip(); }   // data mode: permitted exactly when the padded size in the header does not grow
             if (f.mode == FM_INDEP) return skip();
         }
         long long mx = type_maxval(op.att.type);
